@@ -879,6 +879,7 @@ func scenReconnect(e *Env, args []string, r *rand.Rand) {
 				e.fail("dial.done not reached")
 			}
 			time.Sleep(cr + 30*time.Millisecond)
+			faultMark = e.tr.len()
 			release()
 		case f == "stall":
 			// connects hang (SYNs dropped): each expired connect-retry timer must abandon the pending attempt
